@@ -128,6 +128,7 @@ Definition conv_row (b : Z) : json :=
 Definition loc_name (l : loc) : string :=
   match l with
   | LNestedBlocks => "nested-block" | LStmtPtrs => "statement-pointer" | LCallArgs => "call-arguments"
+  | LExprPtrs => "expression-pointer"
   | LOverrides => "overrides" | LOverrideInitPtr => "override-init" | LOverrideIdPtr => "override-id" | LGlobalExprs => "global-expressions"
   | LConstants => "constants" | LGlobalVars => "global-variables" | LTypes => "types" | LFunctions => "functions"
   | LFnExprs => "fn-expressions" | LFnExprTypes => "fn-expression-types" | LFnLocalVars => "fn-local-vars"
